@@ -9,6 +9,8 @@ Monitors
          compared with a fresh oracle computation for that genotype and that sample's own positive-count reads; hits and
          misses counted separately;
   amap   the compiled arraymap against a dict model (history + executable model);
+  cli    (M4a) real `mchap assemble` runs with --mcmc-llk-cache-threshold in {-1, 0, small, 100, large, 10^6}, without and with
+         tempering (list and per-sample file): records must be identical to the cache-disabled run;
   dict   contents of caller-supplied caches after compiled call / call-pedigree steps (every entry == fresh likelihood
          of that (sample, genotype)).
 """
@@ -51,6 +53,8 @@ def plan(tier, seed):
     specs.append({"name": "amap", "kind": "amap", "shard": 20, "histories": 150 if q else 2500, "timeout": 7000})
     for i in range(4):
         specs.append({"name": "dict%02d" % i, "kind": "dict", "shard": 30 + i, "runs": 12 if q else 120, "timeout": 7000})
+    for i in range(2 if q else 6):
+        specs.append({"name": "cli%02d" % i, "kind": "cli", "shard": 50 + i, "timeout": 7000})
     if not q:
         specs.append({"name": "tracebc", "kind": "trace", "shard": 40, "runs": 8, "timeout": 7000, "mode": {"boundscheck": True}})
         specs.append({"name": "amapbc", "kind": "amap", "shard": 41, "histories": 400, "timeout": 7000, "mode": {"boundscheck": True}})
@@ -62,7 +66,8 @@ def required(tier):
             "cache_growths_observed": 5, "cache_insertions_observed": 500, "nojit_cached_returns_checked": 1000, "nojit_hits": 100,
             "nojit_misses": 100, "nojit_pedigree_returns": 100, "nojit_calling_returns": 100, "nojit_structural_returns": 50,
             "amap_ops": 5000, "amap_flushes": 20, "amap_hits": 1000, "ped_cache_entries_checked": 300,
-            "call_cache_entries_checked": 200, "ped_unequal_read_runs": 10, "tempered_runs": 5, "call_cache_high_ploidy_runs": 3}
+            "call_cache_entries_checked": 200, "ped_unequal_read_runs": 10, "tempered_runs": 5, "call_cache_high_ploidy_runs": 3,
+            "cli_threshold_settings_compared": 12, "cli_records_compared": 60, "cli_tempered_settings": 2}
 
 
 # ---------------------------------------------------------------------------
@@ -546,8 +551,69 @@ def unrank(i, ploidy):
     return out
 
 
+# ---------------------------------------------------------------------------
+# cli: the real `mchap assemble` with every --mcmc-llk-cache-threshold setting
+
+
+def run_cli(tier, seed, spec, col):
+    """The public switch of the assemble cache is --mcmc-llk-cache-threshold (-1 off, 0 always, t: on when ploidy x SNVs x
+    distinct reads > t).  The records of a run must not depend on it (same --mcmc-seed), with and without tempering."""
+    import os
+    import shutil
+
+    from vlib import cli, datasets, env
+
+    rng = gen.rng_for(seed, ID, spec["shard"], 0)
+    root = env.workdir("c09-%s" % spec["name"])
+    shutil.rmtree(root, ignore_errors=True)
+    ds = datasets.make_dataset(rng, root, n_samples=4, n_loci=int(rng.integers(3, 6)), ploidy=[2, 4, 6], depth=(2, 30), contig_len=700,
+                               snv_range=(2, 7), hostile=0.1, err=0.01)
+    pl = os.path.join(root, "ploidy.txt")
+    with open(pl, "w") as fh:
+        for smp in ds.samples:
+            fh.write("%s\t%d\n" % (smp, ds.ploidy[smp]))
+    tfile = os.path.join(root, "temps.txt")
+    with open(tfile, "w") as fh:  # per-sample ladders of different length; the last sample is left at the default
+        for i, smp in enumerate(ds.samples[:-1]):
+            fh.write("\t".join([smp] + ["%.2f" % t for t in ([0.2, 0.5, 1.0], [0.6, 1.0], [0.1, 0.3, 0.6, 1.0])[i % 3]]) + "\n")
+    tempers = [[], ["--mcmc-temperatures", "0.25", "0.5", "1.0"], ["--mcmc-temperatures", tfile]]
+    thresholds = [-1, 0, int(rng.integers(10, 60)), 100, int(rng.integers(150, 2000)), 10 ** 6]
+    for ti, temper in enumerate(tempers):
+        for mseed in (0, 11):
+            if ti and mseed:
+                continue
+            outs = {}
+            for thr in thresholds:
+                argv = ["assemble", "--targets", ds.bed, "--variants", ds.vcf, "--reference", ds.fasta, "--bam"] + ds.bams + [
+                    "--ploidy", pl, "--mcmc-steps", "150", "--mcmc-burn", "50", "--mcmc-seed", str(mseed), "--inbreeding", "0.1",
+                    "--mcmc-llk-cache-threshold", str(thr)] + temper
+                out, exc = cli.run_inproc(argv)
+                case = {"kind": "cli", "seed": seed, "shard": spec["shard"], "threshold": thr, "temper": ti, "mcmc_seed": mseed}
+                col.case(case, nontrivial=thr != -1)
+                if exc is not None:
+                    col.violation("program-fails-with-cache-setting", "assemble --mcmc-llk-cache-threshold %d %s raised %r" % (thr, temper[:1], exc), case)
+                    continue
+                outs[thr] = cli.record_lines(out)
+            if -1 not in outs:
+                continue
+            for thr, recs in outs.items():
+                if thr == -1:
+                    continue
+                col.count("cli_threshold_settings_compared")
+                if ti:
+                    col.count("cli_tempered_settings")
+                col.count("cli_records_compared", len(recs))
+                if recs != outs[-1]:
+                    diff = [(a[:140], b[:140]) for a, b in zip(outs[-1], recs) if a != b][:1]
+                    col.violation("cache-changes-trajectory", "mchap assemble: records with --mcmc-llk-cache-threshold %d differ from those with the cache disabled (-1)%s: %s"
+                                  % (thr, " under tempering" if ti else "", diff or "different number of records"),
+                                  {"kind": "cli", "seed": seed, "shard": spec["shard"], "threshold": thr, "temper": ti, "mcmc_seed": mseed})
+    cli.relax_warnings()
+    shutil.rmtree(root, ignore_errors=True)
+
+
 def run_shard(tier, seed, spec, col):
-    {"trace": run_trace, "nojit": run_nojit, "amap": run_amap, "dict": run_dict}[spec["kind"]](tier, seed, spec, col)
+    {"trace": run_trace, "nojit": run_nojit, "amap": run_amap, "dict": run_dict, "cli": run_cli}[spec["kind"]](tier, seed, spec, col)
 
 
 def replay(obj, col):
